@@ -12,6 +12,7 @@ import (
 	"path/filepath"
 	"strconv"
 	"testing"
+	"time"
 
 	"github.com/markusressel/fan2go/internal/configuration"
 	"github.com/markusressel/fan2go/internal/hwmon"
@@ -149,7 +150,18 @@ func vxC08NewWorld(kind string, window int, fs *env.FS, scratch string, seed vxC
 	return w, ""
 }
 
+// vxC08Slow: a single seeding read or poll took more than one second of real time. cmd sensors run real processes under
+// fan2go's 2 s command timeout; on an overloaded machine a healthy command is killed by that timeout and the read fails for a
+// reason that is not in the alphabet. Such an execution is repeated, and not judged if it stays slow (recorded as a cap).
+var vxC08Slow bool
+
 func vxGuard08(fn func()) (p string) {
+	t0 := mc.RealNow()
+	defer func() {
+		if mc.RealNow().Sub(t0) > time.Second {
+			vxC08Slow = true
+		}
+	}()
 	defer func() {
 		if r := recover(); r != nil {
 			p = fmt.Sprintf("%v", r)
@@ -237,7 +249,21 @@ func vxC08Alphabet(kind string) []vxC08Sym {
 	return a
 }
 
+var vxC08SlowSkipped int64
+
 func vxC08RunSeq(c vxC08Case, fs *env.FS, scratch string) (sig, msg string, trace []float64) {
+	for attempt := 0; attempt < 4; attempt++ {
+		vxC08Slow = false
+		sig, msg, trace = vxC08RunSeqOnce(c, fs, scratch)
+		if sig == "" || !vxC08Slow {
+			return
+		}
+	}
+	vxC08SlowSkipped++
+	return "", "", trace
+}
+
+func vxC08RunSeqOnce(c vxC08Case, fs *env.FS, scratch string) (sig, msg string, trace []float64) {
 	seed := c.Syms[0]
 	w, p := vxC08NewWorld(c.Kind, c.Window, fs, scratch, seed)
 	if p != "" {
@@ -357,6 +383,9 @@ func TestVX_C08(t *testing.T) {
 				break
 			}
 		}
+	}
+	if vxC08SlowSkipped > 0 {
+		rep.Cap(fmt.Sprintf("%d cmd-sensor sequences not judged: a healthy sensor command needed more than 1 s of real time in 4 attempts (overloaded machine; fan2go kills commands after 2 s)", vxC08SlowSkipped))
 	}
 	rep.Note("every sequence of seed read + N polls over the alphabet {-40000,0,35000,35001,100000,1e12} U read faults (cmd: 4 values U {exit 1, non-numeric, empty, nan, inf, -inf}); distinct_nontrivial = passing sequences that mix successful reads and faults")
 }
